@@ -431,8 +431,7 @@ theorem single_bfs_eq :
 /-- the single router builds a DAG, ranked by elevation (`Fs.C04.recv_lower`) -/
 theorem singleRouter_dag (L : Fs.Router.Laws (routerOps S))
     (hnb : ∀ i, i < e.topo.n → ∀ q, q ∈ e.topo.nbrs i → q.1 < e.topo.n)
-    (hlow : ∀ i q, Fs.Router.cand (routerOps S) e.mask f i q = true →
-      S.lt S.lowest (S.div (S.sub (f i) (f q.1)) q.2) = true) :
+    (hlow : Fs.C04.HLow S e f) :
     Dag e.topo.n (singleRouter S e par f).donors (singleRouter S e par f).recv
       (elevRank S e.topo.n f) := by
   have hg := singleRouter_graph S e par f L hnb hlow
@@ -447,8 +446,7 @@ theorem singleRouter_dag (L : Fs.Router.Laws (routerOps S))
 /-- **C06, breadth-first order of the single router** (both variants) -/
 theorem singleRouter_bfs (L : Fs.Router.Laws (routerOps S))
     (hnb : ∀ i, i < e.topo.n → ∀ q, q ∈ e.topo.nbrs i → q.1 < e.topo.n)
-    (hlow : ∀ i q, Fs.Router.cand (routerOps S) e.mask f i q = true →
-      S.lt S.lowest (S.div (S.sub (f i) (f q.1)) q.2) = true) :
+    (hlow : Fs.C04.HLow S e f) :
     (singleRouter S e par f).bfs.flatten.Perm (List.range e.topo.n) ∧
     (∀ lvl, lvl ∈ (singleRouter S e par f).bfs → lvl ≠ []) ∧
     (∀ pre lvl post, (singleRouter S e par f).bfs = pre ++ lvl :: post →
@@ -486,9 +484,8 @@ def exElev : Nat → Nat := fun i => match i with
 theorem exEnv_nbrs : ∀ i, i < exEnv.topo.n → ∀ q, q ∈ exEnv.topo.nbrs i → q.1 < exEnv.topo.n := by
   decide
 
-theorem exLow : ∀ i q, Fs.Router.cand (routerOps exS) exEnv.mask exElev i q = true →
-    exS.lt exS.lowest (exS.div (exS.sub (exElev i) (exElev q.1)) q.2) = true := by
-  intro i q h
+theorem exLow : Fs.C04.HLow exS exEnv exElev := by
+  intro i _ q _ h
   simp only [Fs.Router.cand, routerOps, exS, Fs.C04.exS, Bool.and_eq_true, decide_eq_true_eq] at h ⊢
   omega
 
